@@ -205,3 +205,71 @@ func runShareDump(args []*Sexp) *Sexp {
 	}
 	return out
 }
+
+// (case id poolabort <rounds> <par>) -> (ok <runs>) | (diff <round> <got> <solo>)
+// A VM that is aborted by the host while one of its callbacks runs on a pooled child VM must not
+// affect VMs that are not aborted: in every round VM A aborts itself from inside the n-th callback,
+// then (same goroutine, so the same pool shard) and concurrently (par goroutines) other VMs over
+// the same Bytecode run the script and must return what it returns alone.
+func runPoolAbort(args []*Sexp) *Sexp {
+	rounds, par := int(atomInt(args[0])), int(atomInt(args[1]))
+	src := "global hook\nstrings := import(\"strings\")\nn := 0\nout := strings.Map(func(c) { n++; hook(n); return c + 1 }, \"abcdef\")\n" +
+		"m := strings.IndexFunc(\"xyz\", func(c) { hook(0); return c == 'z' })\nreturn [out, n, m]\n"
+	bc, err, pan := compileSrc([]byte(src), ugo.CompilerOptions{ModuleMap: moduleMapAll(nil)})
+	if err != nil || pan != nil {
+		return L(A("compile-error"), A(sanitize(fmt.Sprint(err, pan))))
+	}
+	noop := &ugo.Function{Name: "hook", Value: func(args ...ugo.Object) (ugo.Object, error) { return ugo.Undefined, nil }}
+	run := func(vm *ugo.VM, hook ugo.Object) string {
+		v, err := vm.Run(ugo.Map{"hook": hook})
+		return concOutcome(v, err, nil)
+	}
+	solo := run(ugo.NewVM(bc), noop)
+	runs := 0
+	for r := 0; r < rounds; r++ {
+		a := ugo.NewVM(bc)
+		at := int64(r % 7)
+		abortHook := &ugo.Function{Name: "hook", Value: func(args ...ugo.Object) (ugo.Object, error) {
+			if n, _ := ugo.ToGoInt64(args[0]); n == at {
+				a.Abort()
+			}
+			return ugo.Undefined, nil
+		}}
+		_ = run(a, abortHook)
+		if got := run(ugo.NewVM(bc), noop); got != solo {
+			return L(A("diff"), A(fmt.Sprint(r)), hexAtom([]byte(got)), hexAtom([]byte(solo)))
+		}
+		runs++
+		var wg sync.WaitGroup
+		var mu sync.Mutex
+		bad := ""
+		for i := 0; i < par; i++ {
+			wg.Add(1)
+			go func(i int) {
+				defer wg.Done()
+				if i%2 == 0 {
+					a2 := ugo.NewVM(bc)
+					h := &ugo.Function{Name: "hook", Value: func(args ...ugo.Object) (ugo.Object, error) {
+						if n, _ := ugo.ToGoInt64(args[0]); n == at {
+							a2.Abort()
+						}
+						return ugo.Undefined, nil
+					}}
+					_ = run(a2, h)
+					return
+				}
+				if got := run(ugo.NewVM(bc), noop); got != solo {
+					mu.Lock()
+					bad = got
+					mu.Unlock()
+				}
+			}(i)
+		}
+		wg.Wait()
+		runs += par / 2
+		if bad != "" {
+			return L(A("diff"), A(fmt.Sprint(r)), hexAtom([]byte(bad)), hexAtom([]byte(solo)))
+		}
+	}
+	return L(A("ok"), A(fmt.Sprint(runs)))
+}
